@@ -7,6 +7,7 @@ from extract import c18_meta_keys, w3c_date
 from harness import c18_attach as A
 from harness import c18_docs as D
 from harness import c18_gen as G
+from harness import c18_linkattr as L
 from harness import docs
 from vlib import sx
 from vlib.framework import PropCheck
@@ -263,11 +264,25 @@ def gen_ops(rng):
     return ops
 
 
+GEOM_KEYS = ('position_x', 'position_y', 'width', 'height', 'margin_top', 'margin_right', 'margin_bottom', 'margin_left',
+             'padding_top', 'padding_right', 'padding_bottom', 'padding_left', 'border_top_width', 'border_right_width',
+             'border_bottom_width', 'border_left_width')
+
+
+def gen_geom(rng):
+    """Used values of a laid-out box: position, content size, margins (also negative), paddings, border widths."""
+    geom = {'position_x': G.dyadic(rng, 0, 200), 'position_y': G.dyadic(rng, 0, 200),
+            'width': G.dyadic(rng, 0, 120), 'height': G.dyadic(rng, 0, 60)}
+    plain = rng.random() < 0.3
+    for side in ('top', 'right', 'bottom', 'left'):
+        geom[f'margin_{side}'] = F(0) if plain else G.dyadic(rng, -4, 12)
+        geom[f'padding_{side}'] = F(0) if plain or rng.random() < 0.5 else G.dyadic(rng, 0, 8)
+        geom[f'border_{side}_width'] = F(0) if plain or rng.random() < 0.5 else G.dyadic(rng, 0, 4)
+    return geom
+
+
 def gen_gbox(rng, depth, names):
     kind = rng.choice(['other', 'other', 'other', 'inline', 'inline', 'line', 'text']) if depth else 'other'
-    bx, by = G.dyadic(rng, 0, 200), G.dyadic(rng, 0, 200)
-    bw, bh = G.dyadic(rng, 0, 120), G.dyadic(rng, 0, 60)
-    margin_top, margin_bottom = G.dyadic(rng, 0, 8), G.dyadic(rng, 0, 8)
     label = rng.choice(['', '', '', 'lab', 'l b', 'é'])
     level = rng.choice([None, None, 1, 2, 3, 6, 0]) if rng.random() < 0.9 else rng.randint(-2, 9)
     link = None
@@ -280,7 +295,7 @@ def gen_gbox(rng, depth, names):
         kids = [gen_gbox(rng, depth + 1, names) for _ in range(rng.choice([0, 1, 1, 2, 3]))]
     return {'kind': kind, 'ops': gen_ops(rng), 'origin': [gen_dim(rng), gen_dim(rng)] if rng.random() < 0.5
             else [['pct', F(50)], ['pct', F(50)]],
-            'border_box': [bx, by, bw, bh], 'margins': [margin_top, margin_bottom], 'label': label, 'level': level,
+            'geom': gen_geom(rng), 'label': label, 'level': level,
             'state': G.rand_state(rng), 'link': link, 'attachment': rng.random() < 0.3, 'anchor': anchor,
             'kids': kids}
 
@@ -307,26 +322,33 @@ def make_real_gbox(spec):
         box = cls('a', style, element, 'text')
     else:
         box = cls('a', style, element, [make_real_gbox(k) for k in spec['kids']])
-    bx, by, bw, bh = spec['border_box']
-    box.position_x, box.margin_left, box.margin_right = bx, F(0), F(0)
-    box.margin_top, box.margin_bottom = spec['margins']
-    box.position_y = by - box.margin_top
-    box.border_left_width = box.border_right_width = box.border_top_width = box.border_bottom_width = F(0)
-    box.padding_left = box.padding_right = box.padding_top = box.padding_bottom = F(0)
-    box.width, box.height = bw, bh
+    for key in GEOM_KEYS:
+        setattr(box, key, F(spec['geom'][key]))
     box.bookmark_label = spec['label'] if spec['label'] or spec['level'] != 2 else None
     return box
 
 
 def gbox_wire(spec, real):
-    """The abstraction read by the model, taken from the real box (hit_area() is the real method)."""
-    hx, hy, hw, hh = real.hit_area()
-    bx, by, bw, bh = spec['border_box']
-    return [spec['kind'], spec['ops'], spec['origin'][0], spec['origin'][1], bx, by, bw, bh,
-            G.frac(hx), G.frac(hy), G.frac(hw), G.frac(hh), esc(spec['label']), spec['level'], esc(spec['state']),
+    """The abstraction read by the model: the used values set on the real box (attributes, no method call)."""
+    return [spec['kind'], spec['ops'], spec['origin'][0], spec['origin'][1],
+            [G.frac(getattr(real, key)) for key in GEOM_KEYS], esc(spec['label']), spec['level'], esc(spec['state']),
             [esc(spec['link'][0]), esc(spec['link'][1])] if spec['link'] else None, spec['attachment'],
             None if spec['anchor'] is None else esc(spec['anchor']),
             [gbox_wire(k, r) for k, r in zip(spec['kids'], real.children)] if spec['kind'] != 'text' else []]
+
+
+def spec_boxes(geom, kind):
+    """The clause, stated on the used values: the clickable rectangle of a box is its border box; an inline box is
+    clickable over the whole height of its line (its margin box vertically) but horizontally over its border box
+    only.  -> (border box x y w h, hit rectangle x y w h)"""
+    g = {k: F(v) for k, v in geom.items()}
+    bx = g['position_x'] + g['margin_left']
+    by = g['position_y'] + g['margin_top']
+    bw = g['width'] + g['padding_left'] + g['padding_right'] + g['border_left_width'] + g['border_right_width']
+    bh = g['height'] + g['padding_top'] + g['padding_bottom'] + g['border_top_width'] + g['border_bottom_width']
+    if kind == 'inline':
+        return (bx, by, bw, bh), (bx, g['position_y'], bw, bh + g['margin_top'] + g['margin_bottom'])
+    return (bx, by, bw, bh), (bx, by, bw, bh)
 
 
 def gathered_wire(anchors, links, bookmarks):
@@ -466,7 +488,7 @@ def judge_gather(spec, impl):
         return d[1] if d[0] == 'px' else ref * d[1] / 100
 
     def walk(s, matrix):
-        bx, by, bw, bh = s['border_box']
+        (bx, by, bw, bh), (hx, hy, hw, hh) = spec_boxes(s['geom'], s['kind'])
         if s['ops'] and s['kind'] != 'inline':
             ox, oy = bx + pct(s['origin'][0], bw), by + pct(s['origin'][1], bh)
             m = (F(1), F(0), F(0), F(1), ox, oy)
@@ -480,8 +502,6 @@ def judge_gather(spec, impl):
                 m = mul(step, m)
             m = mul((F(1), F(0), F(0), F(1), -ox, -oy), m)
             matrix = m if matrix is None else mul(m, matrix)
-        hx, hy, hw, hh = (bx, by - s['margins'][0], bw, bh + s['margins'][0] + s['margins'][1]) if (
-            s['kind'] == 'inline') else (bx, by, bw, bh)
         if s['link'] and s['kind'] not in ('text', 'line'):
             corners = [point(matrix, x, y) for x in (hx, hx + hw) for y in (hy, hy + hh)]
             kind = 'attachment' if s['link'][0] == 'external' and s['attachment'] else s['link'][0]
@@ -629,7 +649,8 @@ def judge_date(string, out):
 class C18(PropCheck):
     id = 'C18'
     extractors = (w3c_date.generate, c18_meta_keys.generate)
-    modules = ('WpModel.Props.C18', 'WpModel.Props.C18Pdf', 'WpModel.Props.C18Tree', 'WpModel.Witness.C18')
+    modules = ('WpModel.Props.C18', 'WpModel.Props.C18Pdf', 'WpModel.Props.C18Tree', 'WpModel.Props.C18LinkAttr',
+               'WpModel.Witness.C18')
     trusted_base = (
         'modelled, not verified: make_page_bookmark_tree / Document.make_bookmark_tree (zipper for the aliased '
         'last_by_depth lists), add_outlines (object numbers = len(pdf.objects)), resolve_links, gather_anchors '
@@ -644,7 +665,8 @@ class C18(PropCheck):
     assumptions = (
         '`\\d` of W3C_DATE_RE is modelled as ASCII digits (the six W3C formats use no other digits)',
         'rotate()/skew() transforms are outside the modelled fragment (irrational matrix entries)',
-        'URL resolution (urllib) and attachment I/O are not modelled; link targets are compared as given by Page.links',
+        'get_link_attribute: str.strip() strips ASCII white space only, no `[` `]` in URL authorities (urlsplit raises '
+        'no ValueError), no lone surrogates; attachment I/O is not modelled',
     )
 
     # -------------------------------------------------------------- correspondence
@@ -660,6 +682,7 @@ class C18(PropCheck):
         self.sec_pdf_strings(run)
         self.sec_attachments(run)
         self.sec_metadata(run)
+        self.sec_linkattr(run)
         D.document_sections(self, run)
         self.report_branches(run)
 
@@ -673,7 +696,8 @@ class C18(PropCheck):
         'resolve-links-direct': ['duplicate', 'dropped', 'pages0'],
         'rectangle-aabb': ['none', 'identity', 'axis', 'general', 'matmul', 'tpoint'],
         'gather-anchors-direct': ['transform', 'transform-inline-ignored', 'link', 'link-on-text/line', 'attachment',
-                                  'anchor', 'anchor-duplicate', 'bookmark'],
+                                  'anchor', 'anchor-duplicate', 'bookmark', 'inline-horizontal-margin',
+                                  'inline-vertical-margin'],
         'w3c-dates': ['nomatch', 'len6', 'len8', 'len10', 'len17', 'len22', 'tz-neg-zero'],
         'pdf-strings': ['enc-literal', 'enc-utf16', 'enc-error', 'enc-escape', 'enc-cr', 'enc-astral', 'dec-written',
                         'lit-octal3', 'lit-octal12', 'lit-escape-letter', 'lit-continuation', 'lit-raw-cr', 'lit-nested',
@@ -684,10 +708,16 @@ class C18(PropCheck):
                                'annots-other-link-types'],
         'metadata-direct': ['meta-title', 'meta-author', 'meta-description', 'meta-keywords', 'meta-generator',
                             'meta-dcterms.created', 'meta-dcterms.modified', 'meta-other', 'rdf-a1', 'rdf-ua1'],
+        'doc-gather': ['anchors', 'links', 'bookmarks', 'inline-link-with-horizontal-margin'],
+        'link-attribute-direct': ['none', 'internal', 'external', 'fragment-only', 'same-document', 'same-path-other-query',
+                                  'other-document-with-fragment', 'no-fragment', 'no-base', 'empty', 'fragment-escaped',
+                                  'unquote-replacement', 'unquote-non-ascii'],
         'doc-one-per-element': ['split', 'nosplit', 'fragments-interleaved-with-other-bookmarks', 'pseudo-element'],
         'doc-pdf-links': ['duplicate-across-pages', 'links', 'anchors'],
-        'doc-attachments': ['link-level', 'link-rel-attachment', 'option', 'failing', 'missing-href'],
-        'doc-link-elements': ['internal', 'external', 'attachment'],
+        'doc-attachments': ['link-level', 'link-rel-attachment', 'option', 'failing', 'missing-href', 'keys-reordered',
+                            'keys-written-form-differs', 'keys-duplicate'],
+        'doc-link-elements': ['internal', 'external', 'attachment', 'rel-other-spelling', 'id-and-name',
+                              'same-path-other-query'],
     }
 
     def report_branches(self, run):
@@ -828,15 +858,20 @@ class C18(PropCheck):
         rng = run.rng
         sec = run.section(
             'gather-anchors-direct',
-            'gather_anchors on trees of real boxes (Block/Inline/Line/Text, dict styles, Fraction geometry, '
+            'gather_anchors on trees of real boxes (Block/Inline/Line/Text, dict styles, Fraction used values: position, '
+            'size, margins, paddings, border widths — the model computes border box and hit_area() from them; '
             'scale/translate/matrix transforms, duplicate anchors, links on text boxes, attachments); non-trivial = '
             'a transformed box with a link, bookmark or anchor below it')
-        for _ in range(run.n(1000, 30000)):
+        for i in range(run.n(1000, 30000)):
             names = rng.sample(['a', 'b', 'c', 'x y'], rng.randint(1, 4))
             spec = gen_gbox(rng, 0, names)
+            if i < 80:                 # small trees first: a disagreement is reported on a readable input
+                spec['kids'] = [dict(gen_gbox(rng, 4, names), kids=[]) for _ in range(rng.choice([1, 1, 2]))]
+                if i < 40:
+                    spec['ops'] = []
             real = make_real_gbox(spec)
             out = G.outcome(lambda: run_real_gather(real))
-            sec.add(sx.line('gather', gbox_wire(spec, real)), out, meta={'spec': spec, 'kind': 'gather'},
+            sec.add(sx.line('gatherraw', gbox_wire(spec, real)), out, meta={'spec': spec, 'kind': 'gather'},
                     nontrivial=_has_transformed_payload(spec, False), tags=_gather_tags(spec))
 
     def sec_dates(self, run):
@@ -997,6 +1032,30 @@ class C18(PropCheck):
                     G.outcome(real_rdf), meta={'kind': 'rdf', 'html': html, 'head': head}, nontrivial=len(head) >= 2,
                     tags=[f'rdf-{variant}{version}'])
 
+    def sec_linkattr(self, run):
+        from urllib.parse import unquote
+        rng = run.rng
+        sec = run.section(
+            'link-attribute-direct',
+            'get_link_attribute on an <a href> element and a base URL (fragment-only hrefs, the document\'s own URL '
+            'spelled relatively / absolutely with the same or another query string, other documents, no base URL, '
+            'white space, escaped and non-ASCII fragments) and urllib.parse.unquote on escaped strings (valid, '
+            'truncated, overlong, surrogate UTF-8); non-trivial = the href has a fragment and is not fragment-only')
+        for _ in range(run.n(2500, 20000)):
+            href, base = L.gen_case(rng)
+            out = L.run_real(href, base)
+            found = L.tags(href, base, out)
+            sec.add(L.line(href, base), out, meta={'kind': 'linkattr', 'href': href, 'base': base},
+                    nontrivial=any(t in found for t in ('same-document', 'same-path-other-query',
+                                                        'other-document-with-fragment')), tags=found)
+        for _ in range(run.n(800, 6000)):
+            string = L.gen_unquote(rng)
+            out = G.outcome(lambda: sx.dumps(G.cps(unquote(string))))
+            sec.add(sx.line('unquote', G.cps(string)), out, meta={'kind': 'unquote', 'string': string},
+                    nontrivial='%' in string,
+                    tags=[t for t, c in (('unquote-replacement', '\ufffd' in unquote(string)),
+                                         ('unquote-non-ascii', not string.isascii())) if c])
+
     def sec_attachments(self, run):
         import pydyf
         from weasyprint import Attachment
@@ -1105,6 +1164,11 @@ class C18(PropCheck):
             return judge_metadata(meta, impl)
         if kind == 'w3c':
             return judge_date(meta['string'], impl)
+        if kind == 'linkattr':
+            return L.judge(meta['href'], meta['base'], impl)
+        if kind == 'unquote':
+            want = sx.dumps(G.cps(L.reference_unquote(meta['string'])))
+            return None if impl == want else f'unquote({meta["string"]!r}) gives {impl}, expected {want}'
         if kind in D.DOC_KINDS:
             return D.judge(meta, d)
         return None
@@ -1159,6 +1223,13 @@ class C18(PropCheck):
             if what:
                 record(what, meta)
                 break
+        for _ in range(600):
+            run.search_stats['evaluations'] += 1
+            href, base = L.gen_case(rng)
+            what = L.judge(href, base, L.run_real(href, base))
+            if what:
+                record(what, {'kind': 'linkattr', 'href': href, 'base': base})
+                break
         for _ in range(300):
             run.search_stats['evaluations'] += 1
             spec = gen_gbox(rng, 2, ['a', 'b'])
@@ -1171,9 +1242,10 @@ class C18(PropCheck):
         return found + D.search(self, run, failures)
 
     def finding_replays(self):
-        return {'dests-not-byte-sorted': D.replay_dests_not_byte_sorted,
-                'pdf-string-cr': D.replay_pdf_string_cr,
-                'embedded-files-not-sorted': D.replay_embedded_files_not_sorted}
+        return {'pdf-string-cr': D.replay_pdf_string_cr,
+                'embedded-files-written-form-order': D.replay_embedded_files_written_form_order,
+                'embedded-files-duplicate-keys': D.replay_embedded_files_duplicate_keys,
+                'anchor-id-shadowed-by-name': D.replay_anchor_id_shadowed}
 
     def replay(self, data):
         inp = data.get('input', {})
@@ -1215,8 +1287,14 @@ class C18(PropCheck):
             out = G.outcome(lambda: _w3c_date_to_pdf(meta['string'], 'verif'))
             return judge_date(meta['string'], 'none' if out is None else out)
         if kind == 'gather':
-            spec = meta['spec']
+            spec = _revive_gbox(meta['spec'])
             return judge_gather(spec, G.outcome(lambda: run_real_gather(make_real_gbox(spec))))
+        if kind == 'linkattr':
+            return L.judge(meta['href'], meta['base'], L.run_real(meta['href'], meta['base']))
+        if kind == 'unquote':
+            from urllib.parse import unquote
+            out = G.outcome(lambda: sx.dumps(G.cps(unquote(meta['string']))))
+            return self.judge({'meta': meta, 'impl': out})
         if kind == 'watt':
             import pydyf
             from weasyprint import Attachment
@@ -1263,6 +1341,20 @@ def _revive(x):
     if isinstance(x, dict):
         return {k: _revive(v) for k, v in x.items()}
     return x
+
+
+def _revive_gbox(spec):
+    """A mock-box spec read back from a replay file: every number a Fraction again (json.dumps(default=str)
+    writes Fraction(5) as '5', which `_revive` cannot tell from a label)."""
+    def dim(d):
+        return [d[0], F(d[1])]
+
+    def op(o):
+        if o[0] == 'translate':
+            return ['translate', dim(o[1]), dim(o[2])]
+        return [o[0]] + [F(v) for v in o[1:]]
+    return dict(spec, ops=[op(o) for o in spec['ops']], origin=[dim(d) for d in spec['origin']],
+                geom={k: F(v) for k, v in spec['geom'].items()}, kids=[_revive_gbox(k) for k in spec['kids']])
 
 
 def _tuple_forest(items):
@@ -1316,6 +1408,12 @@ def _gather_tags(spec):
             seen.add(s['anchor'])
         if s['label'] and s['level']:
             tags.add('bookmark')
+        if s['kind'] == 'inline' and (s['link'] or s['anchor'] or (s['label'] and s['level'])):
+            g = s['geom']
+            if g['margin_left'] or g['margin_right']:
+                tags.add('inline-horizontal-margin')
+            if g['margin_top'] or g['margin_bottom']:
+                tags.add('inline-vertical-margin')
         for k in s['kids']:
             walk(k, seen)
     walk(spec, set())
@@ -1335,12 +1433,17 @@ MANIFEST = {
             'plain ASCII); gather_anchors over a page is a fold over its boxes in document order (one link entry per '
             'link-carrying box fragment, first box wins for an id); make_bookmark_tree composed with add_outlines '
             'never fails and lists every bookmark once in order; attachments are embedded unchanged, in order, one '
-            'file per distinct URL, failures skipped; every link is either emitted or reported. Also: the bookmark builder never fails on levels >= 1 however the list is split over pages, '
+            'file per distinct URL, failures skipped; every link is either emitted or reported; a link is internal only '
+            'for a bare fragment or the document\'s own URL (same scheme, host, path and query) and then targets the unquoted '
+            'fragment, otherwise it carries the resolved URL; unquote undoes iri_to_uri; the clickable rectangle of a box is '
+            'its border box (inline: over the line height) computed from the used values; /Dests is sorted by the bytes of '
+            'its keys for every set of names, /EmbeddedFiles by the written form of its keys (by bytes only for plain keys: '
+            'finding). Also: the bookmark builder never fails on levels >= 1 however the list is split over pages, '
             'the pre-order of its tree is the bookmark list, depths follow the nearest-smaller-level rule and the '
             'result does not depend on the page split; add_outlines links siblings both ways, sets First/Last/Parent '
             'and Count = visible descendants; resolve_links emits no dangling internal link and lists every anchor '
             'once at its first page; rectangle_aabb contains the four transformed corners and is tight; the PDF '
             'date reads back as the W3C date for all six formats and every time zone.',
     'note': 'Trusted: Lean kernel, the extractor, the harness abstraction of real boxes / pydyf objects, Python re. '
-            'rotate()/skew(), URL joining and attachment bytes are outside the models.',
+            'rotate()/skew() and attachment bytes are outside the models.',
 }
